@@ -74,6 +74,61 @@ fn c02_make_unmake_playouts() { playouts(true, false) }
 #[test]
 fn c04_incremental_key_playouts() { playouts(false, true) }
 
+/// the four components C04 says the key is a function of, as a FEN with the two counters normalised to "0 1" (written here
+/// from get_piece / current_turn / the rights of the last record / the en-passant file: no engine serialiser involved)
+fn c04_identity_fen(b: &Board) -> String {
+    let mut p = refrules::Pos { sq: [None; 64], white: b.current_turn == Color::White, rights: [false; 4], ep: b.en_passant_file, half: 0, full: 1 };
+    for i in 0..64u8 { p.sq[i as usize] = b.get_piece(Square::from(i)).map(ref_kind); }
+    let r = b.history.last().unwrap().castling_rights;
+    p.rights = [r.white_kingside == CastlingStatus::Available, r.white_queenside == CastlingStatus::Available,
+                r.black_kingside == CastlingStatus::Available, r.black_queenside == CastlingStatus::Available];
+    refrules::to_fen(&p)
+}
+
+/// C04: the key is a function of (placement, side to move, rights, en-passant file) and of nothing else: along long seeded
+/// playouts (quiet stretches of up to 100 plies included) the key of every position equals the key of the same position
+/// loaded from a FEN with normalised counters, positions met again by another route carry the same key, and the counters of a
+/// FEN do not enter the key
+#[test]
+fn c04_key_depends_on_the_position_only() {
+    for fen in FENS.iter() {
+        let f: Vec<&str> = fen.split_whitespace().collect();
+        let k0 = Board::from_fen(fen).zkey;
+        for (half, full) in [(0, 1), (7, 30), (50, 60), (79, 100), (80, 100), (99, 5999), (149, 6000)] {
+            let g = format!("{} {} {} {} {} {}", f[0], f[1], f[2], f[3], half, full);
+            assert!(Board::from_fen(&g).zkey == k0, "C04: the counters of a FEN enter the key: `{g}` against `{fen}`");
+        }
+    }
+    let mut rng = Rng(seed() ^ 0x51ED);
+    let mut seen: std::collections::HashMap<String, ZKey> = std::collections::HashMap::new();
+    for fen in FENS.iter() {
+        for _game in 0..games(4) {
+            let mut b = Board::from_fen(fen);
+            let mut line: Vec<String> = vec![];
+            for _ply in 0..160 {
+                let moves = b.get_legal_moves();
+                if moves.is_empty() { break; }
+                let m = moves[rng.below(moves.len())];
+                b.make_move(m);
+                line.push(m.to_string());
+                let id = c04_identity_fen(&b);
+                assert!(Board::from_fen(&id).zkey == b.zkey, "C04: after fen {fen} moves {line:?} the key differs from the key of the same position loaded from `{id}`");
+                match seen.get(&id) {
+                    Some(k) => assert!(*k == b.zkey, "C04: the position `{id}` has a different key when reached by fen {fen} moves {line:?}"),
+                    None => { seen.insert(id, b.zkey); }
+                }
+                if b.get_halfmove_clock() >= 110 { break; }
+            }
+            // take everything back: the keys on the way down are those of the way up
+            while line.pop().is_some() {
+                b.unmake_move();
+                let id = c04_identity_fen(&b);
+                if let Some(k) = seen.get(&id) { assert!(*k == b.zkey, "C04: after take-backs the position `{id}` has a different key (fen {fen})"); }
+            }
+        }
+    }
+}
+
 /// C05: every single-component perturbation of a position changes the from-scratch key
 #[test]
 fn c05_single_component_perturbations() {
